@@ -54,11 +54,22 @@ type v22Transfer struct {
 }
 
 // v22SenderCode: one transfer host call per entry, memo = [0xA7, tag, k, 0...].
-func v22SenderCode(tag byte, ts []v22Transfer, spin uint64) []byte {
+func v22SenderCode(tag byte, ts []v22Transfer, spin uint64, yields bool) []byte {
 	a := &refpvm.Asm{}
 	a.Label()
 	a.Jump(1)
 	a.Label() // pc 5: accumulate
+	if yields {
+		// yield the first 32 bytes of this invocation's input sequence: a service that is accumulated in two batches of one block
+		// (once for its work report, once for a transfer it receives) leaves two different outputs in the block's output log
+		a.LoadImm64(7, v22Buffer)
+		a.LoadImm64(8, 0)
+		a.LoadImm64(9, 3*4096)
+		a.LoadImm64(10, 14)
+		a.Ecalli(1, 1) // fetch
+		a.LoadImm64(7, v22Buffer)
+		a.Ecalli(25, 1) // yield
+	}
 	if spin > 0 {
 		// a countdown before the first transfer: makes the service's accumulation long enough to overlap with its neighbours'
 		a.LoadImm64(11, spin)
@@ -79,6 +90,9 @@ func v22SenderCode(tag byte, ts []v22Transfer, spin uint64) []byte {
 		a.Ecalli(20, 1) // transfer
 	}
 	v22Halt(a)
+	if yields {
+		return v22Wrap(a, data, 3)
+	}
 	return v22Wrap(a, data, 0)
 }
 
@@ -129,6 +143,7 @@ type v22Scenario struct {
 	maxToOne  int
 	idMode    int
 	spin      uint64
+	hybrid    bool
 }
 
 func v22Gen(r vh.R) v22Scenario {
@@ -166,6 +181,7 @@ func v22Gen(r vh.R) v22Scenario {
 		sc.receivers = append(sc.receivers, id)
 		sc.delta[id] = v22Account(v22ReceiverCode(), 1<<40)
 	}
+	hybrid := r.Bool()
 	perRecv := map[types.ServiceID]int{}
 	var plan []string
 	for i := 0; i < ns; i++ {
@@ -178,10 +194,17 @@ func v22Gen(r vh.R) v22Scenario {
 			if r.IntN(4) != 0 {
 				to = sc.receivers[0] // most of them to the same receiver: more than a dozen in one round
 			}
-			ts = append(ts, v22Transfer{to: to, amount: uint64(1 + r.IntN(50)), gas: uint64(30 + r.IntN(10))})
+			if hybrid && i > 0 && k == 0 {
+				to = sc.senders[0] // the first sender also RECEIVES: it is accumulated again in the next batch of the same block
+			}
+			tg := uint64(30 + r.IntN(10))
+			if hybrid && to == sc.senders[0] {
+				tg = 4000 + 2*spin // enough for the receiving sender to run its whole program again
+			}
+			ts = append(ts, v22Transfer{to: to, amount: uint64(1 + r.IntN(50)), gas: tg})
 			perRecv[to]++
 		}
-		sc.delta[id] = v22Account(v22SenderCode(byte(i+1), ts, spin), 1<<40)
+		sc.delta[id] = v22Account(v22SenderCode(byte(i+1), ts, spin, hybrid && i == 0), 1<<40)
 		plan = append(plan, fmt.Sprintf("s%d:%d", id, m))
 		var w types.WorkReport
 		copy(w.PackageSpec.Hash[:], r.Bytes(32))
@@ -206,7 +229,10 @@ func v22Gen(r vh.R) v22Scenario {
 		copy(sc.eta[i][:], r.Bytes(32))
 	}
 	sc.desc = fmt.Sprintf("receivers %v, senders %s, countdown %d", sc.receivers, strings.Join(plan, " "), spin)
-	sc.idMode, sc.spin = idMode, spin
+	sc.idMode, sc.spin, sc.hybrid = idMode, spin, hybrid
+	if hybrid {
+		sc.desc += ", first sender yields and also receives"
+	}
 	return sc
 }
 
@@ -238,6 +264,10 @@ func v22Enc(v any) string {
 }
 
 // v22Run executes one accumulation from a fresh copy of the scenario's prior state and returns the projection.
+// v22TwoOutputs: the last run's output log held two entries of one service
+var v22TwoOutputs bool
+var v22Outputs int
+
 func v22Run(sc *v22Scenario) (proj map[string]string, err error, recorded map[types.ServiceID][]byte) {
 	blockchain.ResetInstance()
 	cs := blockchain.GetInstance()
@@ -298,6 +328,13 @@ func v22Run(sc *v22Scenario) (proj map[string]string, err error, recorded map[ty
 	proj["next validators"] = v22Enc(&pi)
 	th := post.GetLastAccOut()
 	proj["accumulation outputs"] = v22Enc(&th)
+	v22TwoOutputs = false
+	v22Outputs = len(th)
+	for i := 1; i < len(th); i++ {
+		if th[i].ServiceID == th[i-1].ServiceID {
+			v22TwoOutputs = true
+		}
+	}
 	xi := post.GetXi()
 	proj["accumulated history"] = v22Enc(&xi)
 	vt := post.GetVartheta()
@@ -393,6 +430,10 @@ func TestVerifC22(t *testing.T) {
 					}
 				}
 				h.Count("transfers_recorded_by_receivers", int64(got))
+				h.Count("entries_in_the_output_logs", int64(v22Outputs))
+				if v22TwoOutputs {
+					h.Inc("rounds_whose_output_log_has_two_entries_of_one_service")
+				}
 				if got == 0 {
 					h.Inc("rounds_without_recorded_transfers")
 				}
@@ -427,6 +468,9 @@ func TestVerifC22(t *testing.T) {
 		h.Inc([]string{"rounds_with_small_service_ids", "rounds_with_random_32_bit_service_ids", "rounds_with_boundary_service_ids"}[sc.idMode])
 		if sc.spin > 0 {
 			h.Inc("rounds_with_long_running_senders")
+		}
+		if sc.hybrid {
+			h.Inc("rounds_with_a_service_accumulated_in_two_batches")
 		}
 		if sc.maxToOne >= 13 {
 			h.Inc("rounds_with_more_than_a_dozen_transfers_to_one_receiver")
